@@ -450,6 +450,18 @@ def check_cases(ctx, cases):
             verify_arg = want_swhid or "swh:1:cnt:" + "0" * 40
         elif case["verify"] == "nonMatching":
             verify_arg = "swh:1:cnt:" + "1" * 40 if (want_swhid or "").endswith("0") else "swh:1:cnt:" + "0" * 40
+            if want_swhid and want_swhid.count(":") == 3 and want_swhid.split(":")[2] in ("cnt", "dir", "rev", "rel", "snp"):
+                # identifiers that differ from the computed one in one place only: the type, the
+                # first or the last digit
+                pre, ver, typ, hexid = want_swhid.split(":")
+                flip = lambda ch: "0" if ch != "0" else "f"
+                near = [verify_arg,
+                        ":".join([pre, ver, {"cnt": "dir", "dir": "cnt"}.get(typ, "rev"), hexid]),
+                        ":".join([pre, ver, ["rev", "rel", "snp"][len(canon_key(case)) % 3], hexid]),
+                        ":".join([pre, ver, typ, hexid[:-1] + flip(hexid[-1])]),
+                        ":".join([pre, ver, typ, flip(hexid[0]) + hexid[1:]])]
+                verify_arg = near[(case["fixture"] + len(canon_key(case))) % len(near)]
+                ctx.count("verify-near-miss=%d" % near.index(verify_arg))
         elif case["verify"] == "malformed":
             # not a core SWHID: wrong scheme version, upper-case hex, an extended type, qualifiers, a short id
             bad = ["swh:2:cnt:" + "0" * 40, "swh:1:cnt:" + "A" * 40, "swh:1:ori:" + "0" * 40, "swh:1:cnt:" + "0" * 40 + ";lines=1", "swh:1:cnt:" + "0" * 39, "cnt", ""]
